@@ -93,6 +93,14 @@ THEOREMS = [
     "KrroodVerif.Eql.C10S_inner_first",
     "KrroodVerif.Eql.C10S_inner_pulls",
 ]
+
+def extra_obligations():
+    """translator tie for the evaluation methods `Eql.eval` transcribes (shared with C01 / C02): the IR regenerated from the
+    current `symbolic.py` is `Eql.IR.irTable` (harness/translate/c01_translate.py)"""
+    from translate import c01_translate as T
+    return T.obligations(PID)
+
+
 MODEL_FUNCTION = ("Eql.traceQuery / Eql.traceE / Eql.uptoRow / Eql.pulled (Model/EqlTrace.lean); Eql.traceExistsRoot / "
                   "Eql.traceForAllRoot (Model/EqlTraceQ.lean); Eql.traceN / Eql.traceQueryN / Eql.existsWalkN / "
                   "Eql.traceForAllN (Model/EqlTraceN.lean: quantifiers in any position); Eql.traceOperand / Eql.traceCmpX / "
